@@ -43,10 +43,54 @@ Definition math_spec (op : binop) (a b z : Z) : Prop :=
   | BAnd => z = Z.land a b
   | BOr => z = Z.lor a b
   | BXor => z = Z.lxor a b
+  | Pow => 0 <= b /\ z = a ^ b
   end.
 
 Definition is_checked (op : binop) : bool :=
-  match op with Add | Sub | Mul | Div | Mod => true | _ => false end.
+  match op with Add | Sub | Mul | Div | Mod | Pow => true | _ => false end.
+
+(* exponentiation helpers *)
+Lemma pow_val_ok a b v : 0 <= b -> pow_val a b = Some v -> v = a ^ b.
+Proof.
+  intros Hb. unfold pow_val.
+  destruct (a =? 0) eqn:E0.
+  { apply Z.eqb_eq in E0. subst a. intros H; inversion H; subst.
+    destruct (b =? 0) eqn:Eb; [apply Z.eqb_eq in Eb; subst; reflexivity|].
+    apply Z.eqb_neq in Eb. symmetry. apply Z.pow_0_l. lia. }
+  destruct (a =? 1) eqn:E1.
+  { apply Z.eqb_eq in E1. subst a. intros H; inversion H. symmetry. apply Z.pow_1_l. lia. }
+  destruct (a =? -1) eqn:Em; [|discriminate].
+  apply Z.eqb_eq in Em. subst a. intros H; inversion H; subst.
+  destruct (Z.even b) eqn:Ev.
+  - change (-1) with (- (1)). rewrite Z.pow_opp_even by (rewrite <- Z.even_spec; exact Ev). symmetry. apply Z.pow_1_l. lia.
+  - change (-1) with (- (1)). rewrite Z.pow_opp_odd by (rewrite <- Z.odd_spec, <- Z.negb_even, Ev; reflexivity).
+    rewrite Z.pow_1_l by lia. reflexivity.
+Qed.
+
+Lemma pow_too_big bits sg a b : pow_val a b = None -> 0 <= b -> bits < b -> in_range bits sg (a ^ b) = false.
+Proof.
+  intros Hp Hb Hbits.
+  assert (Ha : 2 <= Z.abs a).
+  { unfold pow_val in Hp. destruct (a =? 0) eqn:E0; [discriminate|]. destruct (a =? 1) eqn:E1; [discriminate|].
+    destruct (a =? -1) eqn:Em; [discriminate|]. lia. }
+  assert (Hbig : 2 ^ b <= Z.abs (a ^ b)).
+  { rewrite Z.abs_pow. apply Z.pow_le_mono_l. lia. }
+  unfold in_range, int_lo, int_hi.
+  destruct (Z_lt_le_dec bits 1) as [Hs|Hs].
+  - (* degenerate widths: the type is empty or {0} *)
+    assert (Nz : a ^ b <> 0) by (apply Z.pow_nonzero; lia).
+    destruct (Z.eq_dec bits 0) as [->|Hn0].
+    + destruct sg; cbn; lia.
+    + assert (2 ^ bits = 0) by (apply Z.pow_neg_r; lia).
+      assert (2 ^ (bits - 1) = 0) by (apply Z.pow_neg_r; lia).
+      destruct sg; lia.
+  - assert (H1 : 2 ^ (bits + 1) <= 2 ^ b) by (apply Z.pow_le_mono_r; lia).
+    rewrite Z.pow_add_r in H1 by lia. change (2 ^ 1) with 2 in H1.
+    assert (Hp2 : 2 ^ bits = 2 * 2 ^ (bits - 1)).
+    { replace bits with ((bits - 1) + 1) at 1 by lia. rewrite Z.pow_add_r by lia. change (2 ^ 1) with 2. lia. }
+    assert (0 < 2 ^ (bits - 1)) by (apply Z.pow_pos_nonneg; lia).
+    destruct sg; lia.
+Qed.
 
 Lemma quot_spec a b : b <> 0 ->
   exists r, a = b * Z.quot a b + r /\ Z.abs r < Z.abs b /\ 0 <= r * a.
@@ -79,6 +123,12 @@ Proof.
   - intros H; inversion H; split; auto; discriminate.
   - intros H; inversion H; split; auto; discriminate.
   - intros H; inversion H; split; auto; discriminate.
+  - destruct (b <? 0) eqn:Eb; [discriminate|]. assert (0 <= b) by lia.
+    destruct (pow_val a b) as [v|] eqn:Ep.
+    + destruct (in_range bits sg v) eqn:E; intros H0; inversion H0; subst.
+      split; auto. split; auto. eapply pow_val_ok; eauto.
+    + destruct (bits <? b); [discriminate|].
+      destruct (in_range bits sg (a ^ b)) eqn:E; intros H0; inversion H0; subst. split; auto.
 Qed.
 
 (* the truncated quotient / remainder are unique, so [math_spec] determines the result *)
@@ -119,6 +169,7 @@ Proof.
     destruct (trunc_div_unique a b z1 r1 z2 r2); auto.
   - intros [Hb [q1 [E1 [B1 S1]]]] [_ [q2 [E2 [B2 S2]]]].
     destruct (trunc_div_unique a b q1 z1 q2 z2); auto.
+  - intros [_ ->] [_ ->]. reflexivity.
 Qed.
 
 (* None exactly when the mathematical result does not exist (division by zero) or does not fit *)
@@ -153,7 +204,62 @@ Proof.
         + pose proof (Z.rem_nonneg a b Eb l). nia.
         + assert (Ha : a <= 0) by lia. pose proof (Z.rem_nonpos a b Eb Ha). nia. }
     rewrite (math_spec_functional Mod a b z (Z.rem a b)); auto.
+  - (* Pow *)
+    intros H. split; auto. right. intros z [Hb ->].
+    destruct (b <? 0) eqn:Eb; [lia|].
+    destruct (pow_val a b) as [v|] eqn:Ep.
+    + rewrite (pow_val_ok a b v Hb Ep) in H. destruct (in_range bits sg (a ^ b)); [discriminate | reflexivity].
+    + destruct (bits <? b) eqn:Eg.
+      * apply pow_too_big; auto. lia.
+      * destruct (in_range bits sg (a ^ b)); [discriminate | reflexivity].
 Qed.
+
+(* shifts: the left shift is the unique representative in the type's range of a * 2^b modulo 2^bits; the right shift is
+   the floor of a / 2^b (arithmetic shift for negative a) and stays in range *)
+Lemma shl_spec bits sg a b : 0 < bits -> 0 <= b < bits ->
+  let z := shift_val true bits sg a b in
+  in_range bits sg z = true /\ (z - a * 2 ^ b) mod 2 ^ bits = 0.
+Proof.
+  intros Hbits Hb. cbv zeta. unfold shift_val. replace (bits <=? b) with false by lia.
+  assert (P : 0 < 2 ^ bits) by (apply Z.pow_pos_nonneg; lia).
+  assert (Hp2 : 2 ^ bits = 2 * 2 ^ (bits - 1)).
+  { replace bits with ((bits - 1) + 1) at 1 by lia. rewrite Z.pow_add_r by lia. change (2 ^ 1) with 2. lia. }
+  pose proof (Z.mod_pos_bound (a * 2 ^ b) (2 ^ bits) P) as Bw.
+  set (w := (a * 2 ^ b) mod 2 ^ bits) in *.
+  assert (Cw : (w - a * 2 ^ b) mod 2 ^ bits = 0).
+  { unfold w. rewrite Zminus_mod, Z.mod_mod by lia. rewrite Z.sub_diag. apply Z.mod_0_l. lia. }
+  unfold in_range, int_lo, int_hi. destruct sg; cbn [andb].
+  - destruct (2 ^ (bits - 1) <=? w) eqn:E.
+    + split; [lia|]. replace (w - 2 ^ bits - a * 2 ^ b) with ((w - a * 2 ^ b) + (-1) * 2 ^ bits) by lia.
+      rewrite Z.mod_add by lia. exact Cw.
+    + split; [lia | exact Cw].
+  - split; [lia | exact Cw].
+Qed.
+
+Lemma shr_spec bits sg a b : 0 <= b < bits -> in_range bits sg a = true ->
+  let z := shift_val false bits sg a b in
+  z = a / 2 ^ b /\ in_range bits sg z = true.
+Proof.
+  intros Hb Ha. cbv zeta. unfold shift_val. replace (bits <=? b) with false by lia. split; [reflexivity|].
+  assert (P : 0 < 2 ^ b) by (apply Z.pow_pos_nonneg; lia).
+  unfold in_range in *. apply andb_true_iff in Ha. destruct Ha as [Hlo Hhi].
+  apply andb_true_iff. split.
+  - apply Z.leb_le. apply Z.leb_le in Hlo.
+    assert (int_lo bits sg <= 0) by (unfold int_lo; destruct sg; [pose proof (Z.pow_nonneg 2 (bits - 1)); lia | lia]).
+    destruct (Z_lt_le_dec a 0).
+    + apply Z.div_le_lower_bound; auto. nia.
+    + assert (0 <= a / 2 ^ b) by (apply Z.div_pos; lia). lia.
+  - apply Z.leb_le. apply Z.leb_le in Hhi.
+    destruct (Z_lt_le_dec a 0).
+    + assert (a / 2 ^ b < 0) by (apply Z.div_lt_upper_bound; lia). 
+      assert (-1 <= int_hi bits sg) by (unfold int_hi; destruct sg; [pose proof (Z.pow_nonneg 2 (bits - 1)) | pose proof (Z.pow_nonneg 2 bits)]; lia).
+      lia.
+    + assert (a / 2 ^ b <= a) by (apply Z.div_le_upper_bound; nia). lia.
+Qed.
+
+Lemma shift_saturates bits sg a b : bits <= b ->
+  shift_val true bits sg a b = 0 /\ shift_val false bits sg a b = (if a <? 0 then -1 else 0).
+Proof. intros H. unfold shift_val. replace (bits <=? b) with true by lia. auto. Qed.
 
 (* interpreter level: a BinOp yields the mathematical result of its operand values, or the call fails *)
 Section WithProg.
@@ -236,7 +342,7 @@ Qed.
 (* two-operand forms: left operand, then right operand, each exactly once *)
 Definition two_operand (e : expr) : option (expr * expr) :=
   match e with
-  | EBin _ _ a b | ECmp _ a b | EMin a b | EMax a b | EIdx a b => Some (a, b)
+  | EBin _ _ a b | ECmp _ a b | EMin a b | EMax a b | EIdx a b | EShift _ _ a b => Some (a, b)
   | _ => None
   end.
 
@@ -268,6 +374,9 @@ Proof.
   - destruct va; try discriminate. destruct vb; try discriminate.
     apply ret_ok in H; destruct H as (-> & -> & ->). rewrite app_nil_r. auto.
   - destruct va; try discriminate. destruct vb; try discriminate.
+    apply ret_ok in H; destruct H as (-> & -> & ->). rewrite app_nil_r. auto.
+  - match goal with H : match ?t with _ => _ end = _ |- _ => destruct t; try discriminate end.
+    destruct va; try discriminate. destruct vb; try discriminate.
     apply ret_ok in H; destruct H as (-> & -> & ->). rewrite app_nil_r. auto.
 Qed.
 
